@@ -30,7 +30,7 @@ partial def expr? : Sexp → Option Expr
   | s => do let a ← atom? s; pure (.lit (.atom a))
 
 def xexpr? : Sexp → Option XExpr
-  | .list [.atom "CALL", .str f, .list args] => do let as ← args.mapM expr?; pure (.call f as)
+  | .list [.atom "CALL", f, .list args] => do let f ← expr? f; let as ← args.mapM expr?; pure (.call f as)
   | s => do let e ← expr? s; pure (.pure e)
 
 def optExpr? : Sexp → Option (Option Expr)
@@ -125,7 +125,7 @@ partial def exprS : Expr → Sexp
 
 def xexprS : XExpr → Sexp
   | .pure e => exprS e
-  | .call f args => .list [.atom "CALL", .str f, .list (args.map exprS)]
+  | .call f args => .list [.atom "CALL", exprS f, .list (args.map exprS)]
 
 def optS : Option Expr → Sexp
   | none => .atom "NONE"
